@@ -49,6 +49,8 @@ def deep_search(ctx):
 
 
 SPEC["deep_search"] = deep_search
+SPEC["deep_search_first"] = True   # two minutes, against ten per model-sized search round
+SPEC["search_seeds"] = 2
 
 
 def run(ctx):
